@@ -868,6 +868,15 @@ Extra:\n{self.extra_map}
                 # BIP67 sort order
                 bip32_derivs = sorted(bip32_derivs, key=lambda k: k["pubkey"])
 
+                # change has to be spendable by the wallet: one key of every cosigner
+                if (
+                    len({d["master_fingerprint"] for d in bip32_derivs})
+                    != output_quorum_n
+                ):
+                    raise SuspiciousTransaction(
+                        f"Change output #{cnt} does not contain exactly one key from each cosigner"
+                    )
+
                 # Confirm there aren't >1 change ouputs
                 # (this is technically allowed but too sketchy to support)
                 if change_sats or change_addr:
